@@ -104,6 +104,20 @@ def resRaw (r : Res) : Bool :=
   | some t => threadsTokOK t
   | none => true
 
+/-- the range of the stage reader on ANY source text (no exception): `wfStage` without the
+validity of the strings, without the `int64` bound on `mem_gb`/`vmem_gb`, and with the threads
+text as the tokenizer delivered it -/
+def stageRaw (s : Stage) : Bool :=
+  isIdent s.id &&
+  s.ins.all Martian.FormatDecl.paramRaw && s.ins.all isIn &&
+  s.outs.all Martian.FormatDecl.paramRaw && s.outs.all isOut &&
+  s.chunkIns.all Martian.FormatDecl.paramRaw && s.chunkIns.all isIn &&
+  s.chunkOuts.all Martian.FormatDecl.paramRaw && s.chunkOuts.all isOut &&
+  (s.split || (s.chunkIns.isEmpty && s.chunkOuts.isEmpty)) &&
+  Martian.FormatRes.wfField s.path && s.args.all Martian.FormatRes.wfField &&
+  (match s.res with | some r => resRaw r | none => true) &&
+  (match s.retain with | some ids => Martian.FormatRes.wfRetain ids | none => true)
+
 /-- an instance of the canonicaliser: `0.50` ↦ `0.5`, `1e0` ↦ `1`, `007` ↦ `7` (what Go does on
 these three); every other text that is already in printed form stays; anything else ↦ `1` (not what
 Go does; the instance only shows that `HOK` is satisfiable and serves the examples) -/
